@@ -1,7 +1,7 @@
 """C04 - operations on one object never change another object."""
 import random
 
-from props.logical import run_logical, replay_logical
+from props.logical import run_logical, replay_logical, neighbour_cases
 
 LEVEL = "model_checking"
 
@@ -76,12 +76,14 @@ def run(ctx):
     ctx.model_check("C04Frame.tla", "C04_frame.cfg", workers=min(8, ctx.workers))
     return run_logical(
         ctx, LEVEL, models,
-        extra_cases=random_interleavings(ctx, 1500 if thorough else 150),
+        extra_cases=random_interleavings(ctx, 1500 if thorough else 150) + neighbour_cases("C04-neighbours", False),
         nontrivial=lambda c: len({tuple(o.get("pc") or [o.get("p")])[0] for o in c["ops"]}) >= 2,
         rule="cases = ALL interleavings (TLC, Interleave.tla) of per-object programs over 2-3 live objects "
              "(chunked resizable dataset with attributes crossing into dense storage + resize + hard link; contiguous dataset "
              "with growing attributes + new sibling; group with attributes + member; variable-length string dataset whose elements "
-             "include one larger than a global heap collection), superblock 0/2/3, plus seeded random "
+             "include one larger than a global heap collection), superblock 0/2/3, every dataset kind of the write API (compound, string, "
+             "opaque, array, enumeration, variable-length, reference, numeric; contiguous and chunked) followed by a neighbour and then "
+             "given attributes that outgrow a header allocated at its exact size, plus seeded random "
              "interleavings over 4-6 objects; every object is dumped after reopen and compared with the model; "
              "non-trivial = calls on at least two different objects; distinct by hash of the case")
 
